@@ -174,6 +174,12 @@ func (x *fsExec) onIdle() *sched.Action {
 			}}
 		}
 	}
+	// a collection that is to be created while the task runs is created at the first quiescent point at the latest
+	for _, c := range x.sc.Colls {
+		if c.Late && !x.created[c.ID] {
+			return &sched.Action{Label: "create:" + c.Name, Do: x.createLate(c)}
+		}
+	}
 	if !x.finalDone && len(x.missing()) > 0 {
 		return &sched.Action{Label: "final-restart", Do: func() {
 			x.finalDone, x.frozen = true, true
@@ -830,6 +836,40 @@ func fsC05Scenarios(thorough bool) []*fsScenario {
 		sc := &fsScenario{Name: "crash:2tasks", Colls: []*fsColl{c1, c2}, Tasks: []fsTask{{ID: "t0", URI: fsURI, Coll: "c1"}, {ID: "t1", URI: fsURI, Coll: "c2"}}, MaxCount: 1, Crash: true}
 		out = append(out, sc)
 	}
+	// collections created through the create-collection event: created upstream while the task runs (catalog
+	// event), or present upstream but not downstream at task start. The event persists the start positions, then the
+	// writer creates the collection downstream, then the streams are read from the start positions.
+	for _, late := range []bool{true, false} {
+		kind := "late"
+		if !late {
+			kind = "nodown"
+		}
+		mk := func(name string) *fsScenario {
+			c := fsMkColl(101, "c1", "src-dml_0")
+			c.Late, c.NoDown = late, !late
+			c.Shards[0].Script = fsTail([]fsPack{fpIns(1000), fpInsDel(1010), fpDel(1020)}, 1)
+			return &fsScenario{Name: name, Colls: []*fsColl{c}, Tasks: []fsTask{{ID: "t0", URI: fsURI, Coll: "c1"}}, MaxCount: 1}
+		}
+		sc := mk("crash:" + kind + "-create")
+		sc.Crash = true
+		out = append(out, sc)
+		sc = mk("fault:" + kind + "-create")
+		sc.DDLFault, sc.StoreFault, sc.DownFault = true, true, true
+		out = append(out, sc)
+		sc = mk("pause:" + kind + "-create")
+		sc.Pause = true
+		out = append(out, sc)
+	}
+	{
+		// a running collection and a two-shard collection created beside it (one task for both)
+		c1 := fsMkColl(101, "c1", "src-dml_0")
+		c1.Shards[0].Script = fsTail([]fsPack{fpIns(1000), fpDel(1010)}, 1)
+		c2 := fsMkColl(102, "c2", "src-dml_0", "src-dml_1")
+		c2.Late = true
+		c2.Shards[0].Script = fsTail([]fsPack{fpIns(1001), fpIns(1011)}, 1)
+		c2.Shards[1].Script = fsTail([]fsPack{fpIns(1002)}, 1)
+		out = append(out, &fsScenario{Name: "crash:late-beside-running", Colls: []*fsColl{c1, c2}, Tasks: []fsTask{{ID: "t0", URI: fsURI, Coll: "*"}}, MaxCount: 1, Crash: true})
+	}
 	if thorough {
 		sc := one("crash:long", 2, []fsPack{fpIns(1000), fpInsDel(1010), fpTick(1020), fpDel(1030), fpIns(1040), fpIns(1050)})
 		sc.Crash, sc.MaxCrashes = true, 2
@@ -969,6 +1009,16 @@ func fsC06Scenarios(thorough bool) []*fsScenario {
 		// startInternal, before the task is back in its steady state
 		sc = mk("start-scan-fails")
 		sc.Pause, sc.TargetFault = true, true
+		out = append(out, sc)
+		// a collection created while the task runs: the downstream refuses the create request / the store refuses the
+		// start positions
+		sc = mk("reject-create")
+		sc.Colls[0].Late = true
+		sc.DDLFault = true
+		out = append(out, sc)
+		sc = mk("reject-start-position")
+		sc.Colls[0].Late = true
+		sc.StoreFault = true
 		out = append(out, sc)
 		// a message for a partition the downstream never gets
 		sc = mk("unknown-partition")
